@@ -237,6 +237,13 @@ func judgeC19(c ReqCase) *Fail {
 		if x.before.ImpErr != "" {
 			return failf("harness-importance", "cannot rank criteria of the received state: %s", x.before.ImpErr)
 		}
+		// the reference criterion is chosen by the configured strategy (importanceRatio is the default)
+		if want, ok, amb := expectedImportanceRef(x.before, ap); ok && !amb {
+			st.inc("C19:importance-ratio-reference-checked")
+			if x.before.Imp[want] != x.before.Imp[refC] {
+				return failf("reference-chosen-by-strategy", "importanceRatio (newCriterionImportance=%v) picks %s from the ranking %v %v, reported reference criterion is %s", ap["newCriterionImportance"], want, x.before.ImpOrder, x.before.Imp, refC)
+			}
+		}
 		// importance-weighted mean with importances shifted to >= 0.01 and normalised
 		minImp := math.Inf(1)
 		for _, w := range x.before.Imp {
